@@ -28,6 +28,7 @@ type c15Plan struct {
 	KeepAlive     bool     `json:"keep_alive"` // POST only (not replayable), target keeps connections open
 	Reqs          []c15Req `json:"reqs"`
 	Burst         int      `json:"burst"` // > 0: first this many requests at once to a target that never answers
+	Prefix        bool     `json:"prefix,omitempty"` // the service is mounted below /app (prefix stripped before forwarding, the CLI default)
 }
 
 var c15Faults = []string{"none", "no-listener", "accept-close", "read-close", "reset", "garbage", "partial-status", "partial-headers-close",
@@ -41,6 +42,7 @@ func c15Gen(t *rapid.T) c15Plan {
 	p.BufResp = rapid.IntRange(0, 3).Draw(t, "buf-resp") == 0
 	p.ErrPages = rapid.IntRange(0, 2).Draw(t, "err-pages")
 	p.KeepAlive = rapid.Bool().Draw(t, "keep-alive")
+	p.Prefix = rapid.IntRange(0, 2).Draw(t, "prefix") == 0
 	n := rapid.IntRange(1, 6).Draw(t, "nreqs")
 	for i := 0; i < n; i++ {
 		rq := c15Req{Fault: rapid.SampledFrom(c15Faults).Draw(t, "fault")}
@@ -113,7 +115,12 @@ func c15Run(t *testing.T, p c15Plan) (res vfResult) {
 		to := vfFastTargetOptions()
 		to.ResponseTimeout = vfMs(p.RespTimeoutMs)
 		to.BufferRequests, to.BufferResponses, to.MaxMemoryBufferSize = p.BufReq, p.BufResp, 64
-		opts := vfOpts{ErrPages: p.ErrPages}.serviceOptions(vfSvcSpec{Name: "svc"}, "")
+		spec, mount := vfSvcSpec{Name: "svc"}, ""
+		if p.Prefix {
+			spec.Prefixes, mount = []string{"/app"}, "/app"
+			res.label("service-below-a-path-prefix")
+		}
+		opts := vfOpts{ErrPages: p.ErrPages, Strip: p.Prefix}.serviceOptions(spec, "")
 		if err := vfDeploy(r, "svc", []string{"raw0:80"}, opts, to, 5*time.Second, time.Second); err != nil {
 			res.failf("setup-failed", "deploy: %v", err)
 			return
@@ -129,7 +136,7 @@ func c15Run(t *testing.T, p c15Plan) (res vfResult) {
 			outs := make(chan *vfRawResp, p.Burst)
 			for i := 0; i < p.Burst; i++ {
 				go func() {
-					outs <- f.rawExchange(c13ClientIP, [][]byte{[]byte(fmt.Sprintf("GET /burst%d HTTP/1.1\r\nHost: h.test\r\n\r\n", i))}, nil, "GET", 0)
+					outs <- f.rawExchange(c13ClientIP, [][]byte{[]byte(fmt.Sprintf("GET %s/burst%d HTTP/1.1\r\nHost: h.test\r\n\r\n", mount, i))}, nil, "GET", 0)
 				}()
 			}
 			for i := 0; i < p.Burst; i++ {
@@ -164,9 +171,9 @@ func c15Run(t *testing.T, p c15Plan) (res vfResult) {
 				rt.l.refuse = nil
 			}
 			rt.setScripts([][]vfRawStep{c15Script(rq, p.KeepAlive)}, nil)
-			raw := fmt.Sprintf("%s /x%d HTTP/1.1\r\nHost: h.test\r\nContent-Length: 5\r\n\r\nhello", method, i)
+			raw := fmt.Sprintf("%s %s/x%d HTTP/1.1\r\nHost: h.test\r\nContent-Length: 5\r\n\r\nhello", method, mount, i)
 			if method == "GET" {
-				raw = fmt.Sprintf("GET /x%d HTTP/1.1\r\nHost: h.test\r\n\r\n", i)
+				raw = fmt.Sprintf("GET %s/x%d HTTP/1.1\r\nHost: h.test\r\n\r\n", mount, i)
 			}
 			start := w.now()
 			resp := f.rawExchange(c13ClientIP, [][]byte{[]byte(raw)}, nil, method, 0)
@@ -277,7 +284,7 @@ func c15Run(t *testing.T, p c15Plan) (res vfResult) {
 		}
 		// the proxy keeps serving, and a drain does not wait for the failed requests
 		rt.setScripts(nil, []vfRawStep{{Kind: "bytes", Data: c15OKClose}, {Kind: "close"}})
-		resp := f.rawExchange(c13ClientIP, [][]byte{[]byte("GET /after HTTP/1.1\r\nHost: h.test\r\n\r\n")}, nil, "GET", 0)
+		resp := f.rawExchange(c13ClientIP, [][]byte{[]byte("GET " + mount + "/after HTTP/1.1\r\nHost: h.test\r\n\r\n")}, nil, "GET", 0)
 		if !resp.complete() || resp.Resp.StatusCode != 200 {
 			res.failf("not-serving-afterwards", "after the faults a healthy request got %v (err %v/%v)", c13Status(resp), resp.HeadErr, resp.BodyErr)
 			return
